@@ -91,7 +91,7 @@ func runC07(e *Engine, g G, o RunOpt) RunInfo {
 			r.CtxMs = []int{1, 7, 40, 300, 2000}[g.N("ctxms", 5)]
 			r.Read = []string{"now", "later", "abandon"}[g.Weighted("read", 6, 2, 2)]
 			r.LaterMs = []int{5, 60, 900}[g.N("laterms", 3)]
-			r.Answer = []string{"once", "delayed", "twice", "burst", "never", "foreign", "error", "at-ctx-end"}[g.Weighted("answer", 6, 3, 3, 3, 2, 2, 2, 3)]
+			r.Answer = []string{"once", "delayed", "twice", "burst", "never", "foreign", "error", "at-ctx-end", "peer-request-first"}[g.Weighted("answer", 6, 3, 3, 3, 2, 2, 2, 3, 2)]
 			r.DelayMs = []int{2, 13, 120, 1100}[g.N("delayms", 4)]
 			if r.Ctx != "open" && r.Read == "now" && g.Pct("retry", 25) {
 				// the classic retry: no answer in time, same request (same id) again
@@ -223,6 +223,12 @@ func runC07(e *Engine, g G, o RunOpt) RunInfo {
 					emit(0, "foreign-"+id, "result")
 				case "error":
 					emit(0, id, "error")
+				case "peer-request-first":
+					// the peer happens to use the same id for a request of its own (ids are only unique per
+					// sender): that is no response; the response follows
+					c.Send(fmt.Sprintf("<iq id='%s' type='get' from='req-%s@%s'><query xmlns='jabber:iq:version'/></iq>", id, id, SimDomain))
+					e.Probe("c07.peer_request_with_same_id")
+					emit(0, id, "result")
 				case "at-ctx-end":
 					// the answer reaches the client at the very instant the context of its request ends
 					d := time.Duration(0)
